@@ -7,6 +7,6 @@ set -u
 wt="$1"; patch="$2"; shift 2
 cd "$wt" && git checkout -q -- . && git apply "$patch" || { echo "patch does not apply"; exit 2; }
 for p in "$@"; do
-  (cd /verif && VERIF_REPO="$wt" ./check "$p" ${TIER:-quick} 2>&1 | grep -v '^KNOWN-FINDING' | tail -4)
+  (cd /verif && VERIF_REPO="$wt" ./check "$p" ${TIER:-quick} 2>&1 | grep -av '^KNOWN-FINDING' | tail -4)
 done
 cd "$wt" && git checkout -q -- .
